@@ -863,7 +863,8 @@ where
     }
     exit = 1;
   }
-  let evaluations = merged.evaluations + corpus_replayed;
+  // a case that crashed or hung was evaluated too
+  let evaluations = merged.evaluations + corpus_replayed + crashed.len() as u64 + hangs.len() as u64;
   let discard_rate = if merged.evaluations > 0 {
     merged.discarded as f64 / merged.evaluations as f64
   } else {
